@@ -1991,7 +1991,12 @@ impl KotoVm {
             self,
             RemainderAssign,
             remainder_assign,
-            |a: &KNumber, b: &KNumber| a % b,
+            // As in run_remainder, an integer remainder with a divisor of zero results in NaN
+            // rather than a panic.
+            |a: &KNumber, b: &KNumber| match b {
+                KNumber::I64(0) => KNumber::from(f64::NAN),
+                _ => a % b,
+            },
             lhs,
             rhs
         )
